@@ -283,6 +283,24 @@ class FnSplicer:
         body_close = match_close(toks, body_open) if has_body else body_open
         assert body_close == end or not has_body, (tag, body_close, end)
 
+        # Rule 'dyn-to-generic': a parameter `&mut dyn Trait` becomes `&mut verif_T` with a new type parameter
+        # `verif_T: Trait` (Verus has no trait objects; the body only calls trait methods, so the generic fn is the
+        # same code for every implementor, the dyn one included).
+        for trait_name, tyname in (spec.get('dyn_generic') or {}).items():
+            hits = 0
+            k = i + 1
+            while k < pclose - 1:
+                if toks[k].kind == 'ident' and toks[k].text == 'dyn' and toks[k + 1].text == trait_name:
+                    self.segs.rewrite(toks[k].start, toks[k + 1].end, tyname, 'dyn-to-generic')
+                    hits += 1
+                k += 1
+            if hits == 0:
+                raise ExtractError('lost anchor: no `dyn %s` parameter in %s' % (trait_name, tag))
+            if toks[kwi + 2].text == '<':
+                self.segs.insert(toks[kwi + 2].end, '%s: %s, ' % (tyname, trait_name), tag + '/dyn-to-generic', order=0)
+            else:
+                self.segs.insert(toks[kwi + 1].end, '<%s: %s>' % (tyname, trait_name), tag + '/dyn-to-generic', order=0)
+            self.counts['dyn-to-generic'] = self.counts.get('dyn-to-generic', 0) + 1
         for a in spec.get('attrs', []):
             self.segs.insert(toks[start].start, a + '\n', tag + '/attr')
         if spec.get('ret'):
@@ -315,6 +333,18 @@ class FnSplicer:
             self._let_chain_last(body_open, body_close)
         if 'bool-or-assign' in (spec.get('rewrites') or []):
             self._bool_or_assign(body_open, body_close)
+        # an annotation set can name statements it relies on; if one is missing the set does not apply (lost anchor)
+        for anchor in (spec.get('needs') or []):
+            want = anchor.split()
+            if not any([t.text for t in toks[k:k + len(want)]] == want for k in range(body_open + 1, body_close - len(want) + 1)):
+                raise ExtractError('lost anchor: `%s` in %s' % (anchor, tag))
+        # 'ghost-entry-snapshot': `let ghost verif_entry_<p> = <p>;` at the start of the body names the entry value
+        # of a by-value `mut` parameter for loop invariants (ghost code: erased, no effect on execution)
+        for pname in (spec.get('entry_snapshots') or []):
+            self.segs.insert(toks[body_open].end, '\n        let ghost verif_entry_%s = %s;' % (pname, pname), tag + '/ghost-entry-snapshot', order=0)
+            self.counts['ghost-entry-snapshot'] = self.counts.get('ghost-entry-snapshot', 0) + 1
+        if 'or-pattern-guard-split' in (spec.get('rewrites') or []):
+            self._or_pattern_guard_split(body_open, body_close)
         if 'iter-rposition-to-helper' in (spec.get('rewrites') or []):
             self._iter_rposition(body_open, body_close)
         if 'drain-from-next-back-to-helper' in (spec.get('rewrites') or []):
@@ -424,6 +454,45 @@ class FnSplicer:
                 for text, ctag in _clauses(kind, lspec.get(kind), ltag, '        '):
                     self.segs.insert(pos, text, ctag or ltag + '/kw', order=order)
                     order += 1
+            # ghost annotations inside the loop body (checked, erased): snapshots at its start, a proof block at its end
+            if lspec.get('body_start'):
+                self.segs.insert(toks[bopen].end, '\n' + lspec['body_start'].rstrip() + '\n', ltag + '/ghost-body-start', order=0)
+                self.counts['ghost-annotation'] = self.counts.get('ghost-annotation', 0) + 1
+            if lspec.get('body_end'):
+                bclose = match_close(toks, bopen)
+                self.segs.insert(toks[bclose].start, '\n' + lspec['body_end'].rstrip() + '\n', ltag + '/ghost-body-end', order=0)
+                self.counts['ghost-annotation'] = self.counts.get('ghost-annotation', 0) + 1
+
+        # Rule 'tokens-to-helper': an exact token sequence (a std call chain Verus cannot take) is replaced by a call of a
+        # helper function whose body is that very expression behind an assumed contract: [(tokens, replacement)]
+        for n_tr, (pattern, replacement) in enumerate(spec.get('token_rewrites') or []):
+            want = pattern.split()
+            hits = []
+            i = body_open + 1
+            while i < body_close - len(want) + 1:
+                if [t.text for t in toks[i:i + len(want)]] == want and not excluded(i):
+                    hits.append(i)
+                i += 1
+            if len(hits) != 1:
+                raise ExtractError('lost anchor: `%s` occurs %d times in %s' % (pattern, len(hits), tag))
+            self.segs.rewrite(toks[hits[0]].start, toks[hits[0] + len(want) - 1].end, replacement, 'tokens-to-helper')
+            self.counts['tokens-to-helper'] = self.counts.get('tokens-to-helper', 0) + 1
+
+        # ghost annotations before a statement identified by its leading tokens: [(token texts, ghost code)]
+        for n_anchor, (anchor, code) in enumerate(spec.get('ghost_before') or []):
+            want = anchor.split()
+            hit = None
+            i = body_open + 1
+            while i < body_close - len(want):
+                if [t.text for t in toks[i:i + len(want)]] == want and not excluded(i):
+                    if hit is not None:
+                        raise ExtractError('ambiguous anchor: `%s` occurs more than once in %s' % (anchor, tag))
+                    hit = i
+                i += 1
+            if hit is None:
+                raise ExtractError('lost anchor: statement `%s` in %s' % (anchor, tag))
+            self.segs.insert(toks[hit].start, code.rstrip() + '\n            ', '%s/ghost-before%d' % (tag, n_anchor), order=0)
+            self.counts['ghost-annotation'] = self.counts.get('ghost-annotation', 0) + 1
 
         # Rule 'labeled-block-to-loop': `'l: { BODY }` (a unit-valued labeled block, which Verus does not support)
         # becomes `'l: loop <clauses> decreases 0int { BODY break 'l; }`: one pass through BODY, every `break 'l`
@@ -464,6 +533,56 @@ class FnSplicer:
         for k in cspecs:
             if int(k) >= len(closures):
                 raise ExtractError('lost anchor: closure #%s of %s (found %d closures)' % (k, tag, len(closures)))
+
+    def _or_pattern_guard_split(self, body_open, body_close):
+        """Rule 'or-pattern-guard-split': a match arm `HEAD(L1 | L2) if G => BODY` (HEAD a path, L1/L2 literals)
+        becomes the two arms `HEAD(L1) if G => BODY, HEAD(L2) if G => BODY,` (Verus supports neither an or-pattern
+        with a guard).  Same arms tried in the same order with the same guard; BODY is duplicated."""
+        toks = self.src.toks
+        text = self.src.text
+        i = body_open + 1
+        n = 0
+        while i < body_close - 6:
+            if toks[i].text == '(' and toks[i + 1].kind in ('char', 'num', 'str') and toks[i + 2].text == '|' \
+                    and toks[i + 3].kind in ('char', 'num', 'str') and toks[i + 4].text == ')' \
+                    and toks[i + 5].kind == 'ident' and toks[i + 5].text == 'if':
+                # head start: path tokens before '('
+                h = i - 1
+                while toks[h].kind == 'ident' or toks[h].text == '::':
+                    h -= 1
+                h += 1
+                # arrow and arm end
+                k = i + 6
+                while toks[k].text != '=>':
+                    if toks[k].text in OPEN:
+                        k = match_close(toks, k)
+                    k += 1
+                arrow = k
+                b = arrow + 1
+                if toks[b].text == '{':
+                    e = match_close(toks, b)
+                    arm_end = e
+                    if toks[e + 1].text == ',':
+                        arm_end = e + 1
+                else:
+                    e = b
+                    while not (toks[e].kind == 'punct' and toks[e].text == ','):
+                        if toks[e].text in OPEN:
+                            e = match_close(toks, e)
+                        e += 1
+                    arm_end = e
+                head = text[toks[h].start:toks[i].start]
+                guard_body = text[toks[i + 5].start:toks[arm_end].end]
+                if not guard_body.rstrip().endswith(','):
+                    guard_body += ','
+                new = '%s(%s) %s\n                %s(%s) %s' % (head, toks[i + 1].text, guard_body, head, toks[i + 3].text, guard_body)
+                self.segs.rewrite(toks[h].start, toks[arm_end].end, new, 'or-pattern-guard-split')
+                self.counts['or-pattern-guard-split'] = self.counts.get('or-pattern-guard-split', 0) + 1
+                n += 1
+                i = arm_end
+            i += 1
+        if n == 0:
+            raise ExtractError('lost anchor: no `HEAD(L1 | L2) if G =>` arm in %s' % self.name_path)
 
     def _iter_rposition(self, body_open, body_close):
         """Rule 'iter-rposition-to-helper': `RECV.iter().rposition(P)` -> `verif_rposition(&RECV, P)`.
@@ -965,6 +1084,59 @@ def _pub_fields(src, segs, kwi, end, counts, name):
         i += 1
 
 
+def decode_str_literal(tok_text):
+    """Characters of a Rust string literal token (plain or raw)."""
+    t = tok_text
+    if t.startswith('r'):
+        h = 0
+        while t[1 + h] == '#':
+            h += 1
+        return list(t[2 + h:len(t) - 1 - h])
+    assert t[0] == '"' and t[-1] == '"', t
+    body = t[1:-1]
+    out = []
+    i = 0
+    simple = {'n': '\n', 't': '\t', 'r': '\r', '0': '\0', '\\': '\\', '"': '"', "'": "'"}
+    while i < len(body):
+        c = body[i]
+        if c != '\\':
+            out.append(c)
+            i += 1
+            continue
+        e = body[i + 1]
+        if e in simple:
+            out.append(simple[e])
+            i += 2
+        elif e == 'x':
+            out.append(chr(int(body[i + 2:i + 4], 16)))
+            i += 4
+        elif e == 'u':
+            j = body.index('}', i)
+            out.append(chr(int(body[i + 3:j].replace('_', ''), 16)))
+            i = j + 1
+        else:
+            raise ExtractError('unsupported construct: string escape \\%s' % e)
+    return out
+
+
+def rust_char(c):
+    if c == '\\':
+        return "'\\\\'"
+    if c == "'":
+        return "'\\''"
+    if c == '\n':
+        return "'\\n'"
+    if c == '\t':
+        return "'\\t'"
+    if c == '\r':
+        return "'\\r'"
+    if c == '\0':
+        return "'\\0'"
+    if ord(c) < 0x20 or ord(c) == 0x7f:
+        return "'\\u{%x}'" % ord(c)
+    return "'" + c + "'"
+
+
 class Extractor:
     def __init__(self, repo_root):
         self.repo = repo_root
@@ -987,6 +1159,23 @@ class Extractor:
                 raise ExtractError('cannot lex %s: %s' % (rel, e))
         return self.sources[rel]
 
+    def strlit_lemma(self, rel, const_name, lemma_name):
+        """Generated from the source on every run: a proved (reveal_strlit) broadcast lemma giving the characters
+        of the string literal that initialises `const NAME: &str = LITERAL;`."""
+        src = self.source(rel)
+        (start, kwi, end), _w = src.find(['const ' + const_name])
+        toks = src.toks
+        lit = None
+        for k in range(kwi, end + 1):
+            if toks[k].kind == 'str':
+                lit = toks[k].text
+        if lit is None:
+            raise ExtractError('lost anchor: string literal of const %s in %s' % (const_name, rel))
+        chars = decode_str_literal(lit)
+        seq = 'seq![' + ', '.join(rust_char(c) for c in chars) + ']' if chars else 'Seq::<char>::empty()'
+        return ('pub broadcast proof fn %s()\n    ensures #[trigger] %s@ == %s,\n{\n    reveal_strlit(%s);\n    assert(%s@ =~= %s);\n}\n'
+                % (lemma_name, const_name, seq, lit, const_name, seq))
+
     def extract(self, rel, path, spec=None, keep_attrs=False):
         """Extract one item. `path` like ['impl Operator', 'fn precedence'] or ['fn eval'].
         Returns the rendered text plus a map of inserted clause ranges."""
@@ -1001,6 +1190,19 @@ class Extractor:
         if kind in ('enum', 'struct'):
             _inner_attr_edits(src, segs, kwi, end, self.counts)
         spec = spec or {}
+        if kind == 'const' and spec.get('static_str'):
+            # Rule 'const-str-static': `const X: &str` -> `const X: &'static str` (the elided lifetime of a const IS 'static)
+            k = kwi
+            done = False
+            while k < end:
+                if toks[k].text == '&' and toks[k + 1].kind == 'ident' and toks[k + 1].text == 'str':
+                    segs.insert(toks[k + 1].start, "'static ", name + '/const-str-static', order=0)
+                    self.counts['const-str-static'] = self.counts.get('const-str-static', 0) + 1
+                    done = True
+                    break
+                k += 1
+            if not done:
+                raise ExtractError('lost anchor: `&str` in const %s' % name)
         if kind == 'struct' and spec.get('pub_fields'):
             _pub_fields(src, segs, kwi, end, self.counts, name)
         if spec.get('vis'):
